@@ -582,6 +582,9 @@ DESCRIPTOR_SCENARIOS = [
     ('missing-join-table', 'select a1 join nosuch.csv on a1 == b1', 'io'),
     ('io-error-bad-bytes', 'select a1', 'io-badbytes'),
     ('io-error-join-bad-bytes', 'select a1, b1 join jn_bad.csv on a1 == b1', 'io'),
+    # the invalid byte deep inside a join table of several read blocks (beyond what the reader decodes when it is created)
+    ('io-error-join-bad-bytes-late', 'select a1, b1 join jn_bad_late.csv on a1 == b1', 'io'),
+    ('io-error-join-bad-bytes-late-update', 'update a2 = b2 join jn_bad_late.csv on a1 == b1', 'io'),
     ('missing-input', 'select a1', 'missing-input'),
     ('double-unnest', 'select UNNEST([1]), UNNEST([2])', 'parsing'),
     ('strict-left-join-failure', 'select a1 strict left join jn_1.csv on a1 == b1', 'runtime'),
@@ -620,6 +623,8 @@ def leg_descriptors(ns, res, spec):
             f.write(b'b,J1\nb,J2\na,J3\n')
         with open(os.path.join(d, 'jn_bad.csv'), 'wb') as f:
             f.write(b'b,J1\n\xff,J2\n')
+        with open(os.path.join(d, 'jn_bad_late.csv'), 'wb') as f:
+            f.write(b''.join(b'k%d,J%d\n' % (i, i) for i in range(3000)) + b'b,\xe2\x82\n' + b''.join(b'q%d,J\n' % i for i in range(500)))
         db = os.path.join(d, 'db.sqlite')
         conn = sqlite3.connect(db)
         conn.execute('CREATE TABLE t (id TEXT, v TEXT)')
@@ -693,6 +698,8 @@ def leg_descriptors(ns, res, spec):
                     if fd_count() != fds0:
                         res.violation('py:fd-count-changed:' + name, '[py] /proc/self/fd count %d -> %d after query_csv(%r) outcome %s' % (fds0, fd_count(), qtext, err), case)
                     exp_class = expect.rstrip('*').split('-')[0]
+                    if err is not None and exp_class in ('io', 'parsing', 'runtime', 'syntax') and err != exp_class:
+                        res.violation('py:descriptor-scenario-error-class:' + name, '[py] %r failed as %s, expected %s' % (qtext, err, exp_class), case)
                     if expect.startswith('bad-output') and err is None:
                         res.violation('py:descriptor-scenario-did-not-fail:' + name, '[py] %r with an output path that cannot be opened did not fail' % (qtext,), case)
                     if expect in ('ok', 'fifo', 'fifo-small') and err is not None:
